@@ -935,4 +935,192 @@ theorem strcatCopy_spec (l : List Byte) (m : Mem) (s1 s2 fuel : Nat) (hs : CStr 
     refine ⟨m', by simp [strcatCopy, h1, h2, wr_upd hd.1, e], ?_, sameOutside_upd_cons ho⟩
     simpa using holds_cons_of_upd ho hh
 
+
+/-! ## strspn / strcspn / strpbrk -/
+
+theorem spnInner_mem (m : Mem) (c : Byte) (A : List Byte) (a fuel : Nat) (hA : CStr m a A) (hc : c ∈ A)
+    (hf : A.length < fuel) : spnInner m c fuel a = some c := by
+  induction A generalizing a fuel with
+  | nil => simp at hc
+  | cons b A ih =>
+    obtain ⟨f, rfl⟩ : ∃ f, fuel = f + 1 := ⟨fuel - 1, by simp at hf; omega⟩
+    obtain ⟨h1, h2, h3⟩ := cstr_cons.mp hA
+    simp only [List.length_cons] at hf
+    by_cases hb : c = b
+    · subst hb; simp [spnInner, h1, h2]
+    · have : c ∈ A := by
+        rcases List.mem_cons.mp hc with e | e
+        · exact absurd e hb
+        · exact e
+      simp [spnInner, h1, h2, hb, ih (a + 1) f h3 this (by omega)]
+
+theorem spnInner_not_mem (m : Mem) (c : Byte) (A : List Byte) (a fuel : Nat) (hA : CStr m a A) (hc : c ∉ A)
+    (hf : A.length < fuel) : spnInner m c fuel a = some 0#8 := by
+  induction A generalizing a fuel with
+  | nil =>
+    obtain ⟨f, rfl⟩ : ∃ f, fuel = f + 1 := ⟨fuel - 1, by simp at hf; omega⟩
+    simp [spnInner, cstr_nil.mp hA]
+  | cons b A ih =>
+    obtain ⟨f, rfl⟩ : ∃ f, fuel = f + 1 := ⟨fuel - 1, by simp at hf; omega⟩
+    obtain ⟨h1, h2, h3⟩ := cstr_cons.mp hA
+    simp only [List.length_cons] at hf
+    simp only [List.mem_cons, not_or] at hc
+    simp [spnInner, h1, h2, hc.1, ih (a + 1) f h3 hc.2 (by omega)]
+
+theorem strspnLoop_spec (m : Mem) (A : List Byte) (accept fuel : Nat) (hA : CStr m accept A)
+    (hf : A.length < fuel) (q : List Byte) (x : Byte) (p g count : Nat)
+    (h : Holds m p (q ++ [x])) (h0 : 0#8 ∉ q) (hq : ∀ y ∈ q, y ∈ A) (hx : x = 0#8 ∨ x ∉ A)
+    (hg : q.length < g) : strspnLoop m accept fuel g p count = some (count + q.length) := by
+  induction q generalizing p g count with
+  | nil =>
+    obtain ⟨g, rfl⟩ : ∃ k, g = k + 1 := ⟨g - 1, by simp at hg; omega⟩
+    simp only [List.nil_append, holds_cons] at h
+    by_cases hz : x = 0#8
+    · simp [strspnLoop, h.1, hz]
+    · have hx' : x ∉ A := by rcases hx with e | e; exact absurd e hz; exact e
+      simp [strspnLoop, h.1, hz, spnInner_not_mem m x A accept fuel hA hx' hf]
+  | cons b q ih =>
+    obtain ⟨g, rfl⟩ : ∃ k, g = k + 1 := ⟨g - 1, by simp at hg; omega⟩
+    simp only [List.cons_append, holds_cons] at h
+    simp only [List.mem_cons, not_or] at h0
+    have hb0 : ¬ b = 0#8 := fun e => h0.1 e.symm
+    have hbA : b ∈ A := hq b (by simp)
+    simp only [List.length_cons] at hg
+    simp [strspnLoop, h.1, hb0, spnInner_mem m b A accept fuel hA hbA hf,
+      ih (p + 1) g (count + 1) h.2 h0.2 (fun y hy => hq y (by simp [hy])) (by omega)]
+    omega
+
+theorem toChar_scInt (b : Byte) : toChar (scInt b) = b := by
+  unfold toChar scInt; exact BitVec.ofInt_toInt
+
+/-- strchr as a membership test (what strcspn and strtok_r use it for) -/
+theorem strchr_mem (m : Mem) (c : Byte) (R : List Byte) (a fuel : Nat) (hR : CStr m a R) (hc : c ∈ R)
+    (hf : R.length < fuel) : ∃ q, strchr m a (scInt c) fuel = some (some q) := by
+  obtain ⟨p, r, e, hp⟩ := first_split hc
+  subst e
+  have hs : Holds m a (p ++ [c]) ∧ 0#8 ∉ p ++ [c] := by
+    have : p ++ c :: r = (p ++ [c]) ++ r := by simp
+    rw [this] at hR; exact cstr_prefix_holds hR
+  refine ⟨a + p.length, ?_⟩
+  have := strchr_first m p a (scInt c) fuel (by rw [toChar_scInt]; exact hs.1)
+    (fun e => hs.2 (List.mem_append_left _ e)) (by rw [toChar_scInt]; exact hp) (by simp at hf; omega)
+  exact this
+
+theorem strchr_not_mem (m : Mem) (c : Byte) (R : List Byte) (a fuel : Nat) (hR : CStr m a R) (hc : c ∉ R)
+    (hz : c ≠ 0#8) (hf : R.length < fuel) : strchr m a (scInt c) fuel = some none :=
+  strchr_none m R a (scInt c) fuel hR (by rw [toChar_scInt]; exact hc) (by rw [toChar_scInt]; exact hz) hf
+
+theorem strcspnLoop_spec (m : Mem) (R : List Byte) (reject fuel : Nat) (hR : CStr m reject R)
+    (hf : R.length < fuel) (q : List Byte) (x : Byte) (s g count : Nat)
+    (h : Holds m s (q ++ [x])) (h0 : 0#8 ∉ q) (hq : ∀ y ∈ q, y ∉ R) (hx : x = 0#8 ∨ x ∈ R)
+    (hg : q.length < g) : strcspnLoop m reject fuel g s count = some (count + q.length) := by
+  induction q generalizing s g count with
+  | nil =>
+    obtain ⟨g, rfl⟩ : ∃ k, g = k + 1 := ⟨g - 1, by simp at hg; omega⟩
+    simp only [List.nil_append, holds_cons] at h
+    by_cases hz : x = 0#8
+    · simp [strcspnLoop, h.1, hz]
+    · have hx' : x ∈ R := by rcases hx with e | e; exact absurd e hz; exact e
+      obtain ⟨w, e⟩ := strchr_mem m x R reject fuel hR hx' hf
+      simp [strcspnLoop, h.1, hz, e]
+  | cons b q ih =>
+    obtain ⟨g, rfl⟩ : ∃ k, g = k + 1 := ⟨g - 1, by simp at hg; omega⟩
+    simp only [List.cons_append, holds_cons] at h
+    simp only [List.mem_cons, not_or] at h0
+    have hb0 : b ≠ 0#8 := fun e => h0.1 e.symm
+    have hbR : b ∉ R := hq b (by simp)
+    simp only [List.length_cons] at hg
+    simp [strcspnLoop, h.1, hb0, strchr_not_mem m b R reject fuel hR hbR hb0 hf,
+      ih (s + 1) g (count + 1) h.2 h0.2 (fun y hy => hq y (by simp [hy])) (by omega)]
+    omega
+
+theorem pbrkInner_mem (m : Mem) (x : Byte) (A : List Byte) (a fuel : Nat) (hA : CStr m a A) (hx : x ∈ A)
+    (hf : A.length < fuel) : ∃ c, pbrkInner m x fuel a = some c ∧ m c = some x := by
+  induction A generalizing a fuel with
+  | nil => simp at hx
+  | cons b A ih =>
+    obtain ⟨f, rfl⟩ : ∃ f, fuel = f + 1 := ⟨fuel - 1, by simp at hf; omega⟩
+    obtain ⟨h1, h2, h3⟩ := cstr_cons.mp hA
+    simp only [List.length_cons] at hf
+    by_cases hb : x = b
+    · subst hb; exact ⟨a, by simp [pbrkInner, h1, h2], h1⟩
+    · have : x ∈ A := by
+        rcases List.mem_cons.mp hx with e | e
+        · exact absurd e hb
+        · exact e
+      obtain ⟨c, e, hc⟩ := ih (a + 1) f h3 this (by omega)
+      exact ⟨c, by simp [pbrkInner, h1, h2, hb, e], hc⟩
+
+theorem pbrkInner_not_mem (m : Mem) (x : Byte) (A : List Byte) (a fuel : Nat) (hA : CStr m a A) (hx : x ∉ A)
+    (hf : A.length < fuel) : ∃ c, pbrkInner m x fuel a = some c ∧ m c = some 0#8 := by
+  induction A generalizing a fuel with
+  | nil =>
+    obtain ⟨f, rfl⟩ : ∃ f, fuel = f + 1 := ⟨fuel - 1, by simp at hf; omega⟩
+    exact ⟨a, by simp [pbrkInner, cstr_nil.mp hA], cstr_nil.mp hA⟩
+  | cons b A ih =>
+    obtain ⟨f, rfl⟩ : ∃ f, fuel = f + 1 := ⟨fuel - 1, by simp at hf; omega⟩
+    obtain ⟨h1, h2, h3⟩ := cstr_cons.mp hA
+    simp only [List.length_cons] at hf
+    simp only [List.mem_cons, not_or] at hx
+    obtain ⟨c, e, hc⟩ := ih (a + 1) f h3 hx.2 (by omega)
+    exact ⟨c, by simp [pbrkInner, h1, h2, hx.1, e], hc⟩
+
+theorem pbrkOuter_spec (m : Mem) (A : List Byte) (s2 fuel : Nat) (hA : CStr m s2 A) (hf : A.length < fuel)
+    (q : List Byte) (x : Byte) (s1 g c0 : Nat) (h : Holds m s1 (q ++ [x])) (h0 : 0#8 ∉ q)
+    (hq : ∀ y ∈ q, y ∉ A) (hx : x = 0#8 ∨ x ∈ A) (hc0 : m c0 = some 0#8) (hg : q.length < g) :
+    ∃ c, pbrkOuter m s2 fuel g s1 c0 = some (s1 + q.length, c) ∧
+      m c = some (if x ∈ A then x else 0#8) := by
+  induction q generalizing s1 g c0 with
+  | nil =>
+    obtain ⟨g, rfl⟩ : ∃ k, g = k + 1 := ⟨g - 1, by simp at hg; omega⟩
+    simp only [List.nil_append, holds_cons] at h
+    by_cases hz : x = 0#8
+    · have hxA : x ∉ A := by rw [hz]; exact hA.2
+      exact ⟨c0, by simp [pbrkOuter, h.1, hz], by rw [if_neg hxA]; exact hc0⟩
+    · have hx' : x ∈ A := by rcases hx with e | e; exact absurd e hz; exact e
+      obtain ⟨c, e, hc⟩ := pbrkInner_mem m x A s2 fuel hA hx' hf
+      exact ⟨c, by simp [pbrkOuter, h.1, hz, e, hc], by rw [if_pos hx']; exact hc⟩
+  | cons b q ih =>
+    obtain ⟨g, rfl⟩ : ∃ k, g = k + 1 := ⟨g - 1, by simp at hg; omega⟩
+    simp only [List.cons_append, holds_cons] at h
+    simp only [List.mem_cons, not_or] at h0
+    have hb0 : ¬ b = 0#8 := fun e => h0.1 e.symm
+    have hbA : b ∉ A := hq b (by simp)
+    simp only [List.length_cons] at hg
+    obtain ⟨c1, e1, hc1⟩ := pbrkInner_not_mem m b A s2 fuel hA hbA hf
+    obtain ⟨c, e, hc⟩ := ih (s1 + 1) g c1 h.2 h0.2 (fun y hy => hq y (by simp [hy])) hc1 (by omega)
+    refine ⟨c, ?_, hc⟩
+    simp [pbrkOuter, h.1, hb0, e1, hc1, e]
+    omega
+
+
+/-! ## strtok_r -/
+
+theorem tokSkip_spec (m : Mem) (D : List Byte) (delim fuel : Nat) (hD : CStr m delim D)
+    (hf : D.length < fuel) (q : List Byte) (x : Byte) (str g : Nat)
+    (h : Holds m str (q ++ [x])) (h0 : 0#8 ∉ q) (hq : ∀ y ∈ q, y ∈ D) (hx : x = 0#8 ∨ x ∉ D)
+    (hg : q.length < g) :
+    tokSkip m delim fuel g str =
+      some (if x = 0#8 then .inl (str + q.length) else .inr (str + q.length + 1)) := by
+  induction q generalizing str g with
+  | nil =>
+    obtain ⟨g, rfl⟩ : ∃ k, g = k + 1 := ⟨g - 1, by simp at hg; omega⟩
+    simp only [List.nil_append, holds_cons] at h
+    by_cases hz : x = 0#8
+    · simp [tokSkip, h.1, hz]
+    · have hx' : x ∉ D := by rcases hx with e | e; exact absurd e hz; exact e
+      simp [tokSkip, h.1, hz, strchr_not_mem m x D delim fuel hD hx' hz hf]
+  | cons b q ih =>
+    obtain ⟨g, rfl⟩ : ∃ k, g = k + 1 := ⟨g - 1, by simp at hg; omega⟩
+    simp only [List.cons_append, holds_cons] at h
+    simp only [List.mem_cons, not_or] at h0
+    have hb0 : ¬ b = 0#8 := fun e => h0.1 e.symm
+    have hbD : b ∈ D := hq b (by simp)
+    obtain ⟨w, e⟩ := strchr_mem m b D delim fuel hD hbD hf
+    simp only [List.length_cons] at hg
+    have e2 := ih (str + 1) g h.2 h0.2 (fun y hy => hq y (by simp [hy])) (by omega)
+    simp [tokSkip, h.1, hb0, e, e2]
+    have a1 : str + 1 + q.length = str + (q.length + 1) := by omega
+    rw [a1]
+
 end Igris.C08
